@@ -1,5 +1,9 @@
 import LinOp.C18.Model
 import LinOp.C18.ProofsCIQ
+import LinOp.C18.ModelRoots
+import LinOp.C18.ProofsPrecond
+import LinOp.Generated.C18Facts
+import LinOp.C18.Expected
 import LinOp.Core.Bridge
 import Mathlib.Algebra.BigOperators.Ring.Finset
 import Mathlib.Data.Matrix.Mul
@@ -351,5 +355,227 @@ example : blockDiagL (α := ℤ) (nb := 2) (n := 1) (m := 1) (fun b => fun _ _ =
   apply blockDiag_cov
   intro b; funext i j; fin_cases b <;>
     (show (∑ l : Fin 1, _) = _; simp [Matrix.transpose])
+
+
+/-! ## Extension session 5 — class-specific roots, preconditioned CIQ, repeat indexing, sampler shapes, translator facts -/
+
+/-- **Chol, both orientations**: the root handed to the sampler (`root` for the lower orientation, `rootᵀ` for the upper
+one) is a root of what the operator represents (`T Tᵀ` resp. `Tᵀ T`), every size. -/
+theorem chol_cov {n : Nat} (upper : Bool) (T : Matrix (Fin n) (Fin n) α) :
+    (Matrix.of (cholRoot upper T) * (Matrix.of (cholRoot upper T))ᵀ : Matrix _ _ α)
+      = if upper then Tᵀ * T else T * Tᵀ := by
+  cases upper <;> (ext i j; simp [cholRoot, Matrix.mul_apply, Matrix.transpose_apply]) <;> rfl
+
+/-- Chol draws are the fixed linear map `cholRoot upper T` of the noise (base-class sampler). -/
+theorem chol_linear {n k : Nat} (upper : Bool) (T : Mat α n n) (Z : Mat α n k) :
+    generic (cholRoot upper T) Z
+      = ((Matrix.of (cholRoot upper T) * Matrix.of Z : Matrix _ _ α)ᵀ : Matrix _ _ α) :=
+  generic_linear _ _
+
+/-- `_scale_columns(U, s)` is `U · diag(s)`. -/
+theorem scaleCols_eq {n m : Nat} (U : Matrix (Fin n) (Fin m) α) (s : Fin m → α) :
+    (Matrix.of (scaleCols U s) : Matrix _ _ α) = U * Matrix.diagonal s := by
+  ext i j; simp [scaleCols, Matrix.mul_diagonal]
+
+/-- **symeig / diagonalization / svd roots** `_scale_columns(evecs, √evals)`: a root of `U diag(λ) Uᵀ` whenever
+`s_j² = λ_j`, any (also non-square, non-orthogonal) `U`. -/
+theorem symeig_cov {n m : Nat} (U : Matrix (Fin n) (Fin m) α) (s lam : Fin m → α) (h : ∀ j, s j * s j = lam j) :
+    (Matrix.of (scaleCols U s) * (Matrix.of (scaleCols U s))ᵀ : Matrix _ _ α) = U * Matrix.diagonal lam * Uᵀ := by
+  have e : (fun j => s j * s j) = lam := funext h
+  rw [scaleCols_eq, Matrix.transpose_mul, Matrix.diagonal_transpose, Matrix.mul_assoc,
+    ← Matrix.mul_assoc (Matrix.diagonal s), Matrix.diagonal_mul_diagonal, e, ← Matrix.mul_assoc]
+
+/-- symeig-root draws are the fixed linear map `U diag(s)` of the noise. -/
+theorem symeig_linear {n m k : Nat} (U : Mat α n m) (s : Fin m → α) (Z : Mat α m k) :
+    generic (scaleCols U s) Z = ((Matrix.of (scaleCols U s) * Matrix.of Z : Matrix _ _ α)ᵀ : Matrix _ _ α) :=
+  generic_linear _ _
+
+/-- **KroneckerProductAddedDiag with a constant diagonal** (`_root_decomposition`, reached above max_cholesky_size):
+`Q · diag(√(λ + c))` with `K = Q diag(λ) Qᵀ`, `Q Qᵀ = 1` is a root of `K + c·I`. -/
+theorem kronAddedDiag_cov {n : Nat} (Qm : Matrix (Fin n) (Fin n) α) (hQ : Qm * Qmᵀ = 1) (s lam : Fin n → α) (c : α)
+    (h : ∀ j, s j * s j = lam j + c) :
+    (Matrix.of (scaleCols Qm s) * (Matrix.of (scaleCols Qm s))ᵀ : Matrix _ _ α)
+      = Qm * Matrix.diagonal lam * Qmᵀ + c • (1 : Matrix (Fin n) (Fin n) α) := by
+  rw [symeig_cov Qm s (fun j => lam j + c) h]
+  have e : Matrix.diagonal (fun j => lam j + c) = Matrix.diagonal lam + c • (1 : Matrix (Fin n) (Fin n) α) := by
+    ext i j
+    by_cases hij : i = j
+    · subst hij; simp
+    · simp [hij]
+  rw [e, Matrix.mul_add, Matrix.add_mul, Matrix.mul_smul, Matrix.mul_one, Matrix.smul_mul, hQ]
+
+/-- KroneckerAddedDiag draws are the fixed linear map `Q diag(s)` of the noise. -/
+theorem kronAddedDiag_linear {n k : Nat} (Qm : Mat α n n) (s : Fin n → α) (Z : Mat α n k) :
+    generic (scaleCols Qm s) Z = ((Matrix.of (scaleCols Qm s) * Matrix.of Z : Matrix _ _ α)ᵀ : Matrix _ _ α) :=
+  generic_linear _ _
+
+/-- `mmul` is the matrix product. -/
+theorem mmul_eq {n m p : Nat} (A : Matrix (Fin n) (Fin m) α) (B : Matrix (Fin m) (Fin p) α) :
+    (Matrix.of (mmul A B) : Matrix _ _ α) = A * B := by
+  ext i j; simp [mmul, sumFin_eq_sum, Matrix.mul_apply]
+
+/-- **SumKronecker** (`K₁ + K₂`, `_root_decomposition = lt2_root.matmul(inner_root)`): with `R₂ R₂ᵀ = K₂`, `Rinv` a left
+inverse of `R₂` (`Rinv R₂ = 1`, `R₂ Rinv = 1`), inner matrix `Minner = Rinv K₁ Rinvᵀ + 1` and `Ri Riᵀ = Minner`, the root
+`R₂ Ri` is a root of `K₁ + K₂`. -/
+theorem sumKron_cov {n m : Nat} (R2 Rinv K1 K2 : Matrix (Fin n) (Fin n) α) (Ri : Matrix (Fin n) (Fin m) α)
+    (h2 : R2 * R2ᵀ = K2) (hinv : R2 * Rinv = 1)
+    (hi : Ri * Riᵀ = Rinv * K1 * Rinvᵀ + 1) :
+    (Matrix.of (mmul R2 Ri) * (Matrix.of (mmul R2 Ri))ᵀ : Matrix _ _ α) = K1 + K2 := by
+  have hinvT : Rinvᵀ * R2ᵀ = 1 := by rw [← Matrix.transpose_mul, hinv, Matrix.transpose_one]
+  rw [mmul_eq, Matrix.transpose_mul]
+  calc R2 * Ri * (Riᵀ * R2ᵀ) = R2 * (Ri * Riᵀ) * R2ᵀ := by simp only [Matrix.mul_assoc]
+    _ = (R2 * Rinv) * K1 * (Rinvᵀ * R2ᵀ) + R2 * R2ᵀ := by
+        rw [hi, Matrix.mul_add, Matrix.add_mul, Matrix.mul_one]; simp only [Matrix.mul_assoc]
+    _ = K1 + K2 := by rw [hinv, hinvT, Matrix.one_mul, Matrix.mul_one, h2]
+
+/-- **ConstantMul with a batch of constants**: member `b` of the root is `√c_b · R_b`, a root of `c_b · A_b`, for every
+member of any index type (all batch shapes). -/
+theorem constMul_batch_cov {B : Type} {n m : Nat} (sc c : B → α) (h : ∀ b, sc b * sc b = c b)
+    (R : B → Matrix (Fin n) (Fin m) α) (A : B → Matrix (Fin n) (Fin n) α) (hR : ∀ b, R b * (R b)ᵀ = A b) (b : B) :
+    (Matrix.of (constMulRoot (sc b) (R b)) * (Matrix.of (constMulRoot (sc b) (R b)))ᵀ : Matrix _ _ α) = c b • A b :=
+  constMul_cov (sc b) (c b) (h b) (R b) (A b) (hR b)
+
+/-! ### BatchRepeat: `root.repeat(*batch_repeat, 1, 1)` — output member `idx` reads base member `idx % base`. -/
+
+/-- The index map of `repeat` lands inside the base batch shape (every dimension, every number of batch dims). -/
+theorem repeatIdx_lt : ∀ (base idx : List Nat), idx.length = base.length → (∀ b ∈ base, 0 < b) →
+    List.Forall₂ (· < ·) (repeatIdx base idx) base
+  | [], [], _, _ => by simp [repeatIdx]
+  | [], _ :: _, h, _ => by simp at h
+  | _ :: _, [], h, _ => by simp at h
+  | b :: bs, i :: is, h, hp => by
+    have hb : 0 < b := hp b (by simp)
+    have := repeatIdx_lt bs is (by simpa using h) (fun x hx => hp x (by simp [hx]))
+    simpa [repeatIdx] using ⟨Nat.mod_lt _ hb, this⟩
+
+/-- The first tile is the base itself: an index inside the base shape is read from the same base member. -/
+theorem repeatIdx_of_lt : ∀ (base idx : List Nat), List.Forall₂ (· < ·) idx base → repeatIdx base idx = idx
+  | _, _, .nil => by simp [repeatIdx]
+  | _, _, .cons h t => by
+    have := repeatIdx_of_lt _ _ t
+    simp only [repeatIdx] at this
+    simp [repeatIdx, Nat.mod_eq_of_lt h, this]
+
+/-- Row-major flattening inverts un-flattening for every shape and every member index below the member count. -/
+theorem ravel_unravel : ∀ (shape : List Nat) (f : Nat), f < shape.foldr (· * ·) 1 →
+    ravelRev shape (unravelRev shape f) = f
+  | [], f, h => by simp at h; simp [ravelRev, h]
+  | d :: ds, f, h => by
+    have hd : 0 < d := Nat.pos_of_ne_zero (by intro h0; simp [h0] at h)
+    have h' : f / d < ds.foldr (· * ·) 1 := by
+      rw [Nat.div_lt_iff_lt_mul hd]; simpa [Nat.mul_comm] using h
+    simp only [unravelRev, ravelRev, ravel_unravel ds (f / d) h']
+    exact Nat.mod_add_div f d
+
+/-- The repeated batch shape has as many dimensions as repeat arguments (at least as many as the base has). -/
+theorem repeatShape_length (base reps : List Nat) (h : base.length ≤ reps.length) :
+    (repeatShape base reps).length = reps.length := by
+  simp [repeatShape, padLeft]; omega
+
+/-- **BatchRepeat roots**: if every base member's root is a root of that member's covariance, then every member of the
+repeated root is a root of the corresponding member of the repeated operator (member `idx` of both reads base member
+`idx % base`), for every batch shape and repeat pattern. -/
+theorem batchRepeat_cov {n m : Nat} (base : List Nat) (R : List Nat → Matrix (Fin n) (Fin m) α)
+    (A : List Nat → Matrix (Fin n) (Fin n) α) (h : ∀ idx, R idx * (R idx)ᵀ = A idx) (idx : List Nat) :
+    R (repeatIdx base idx) * (R (repeatIdx base idx))ᵀ = A (repeatIdx base idx) := h _
+
+/-- Shape of the sampler on a BatchRepeat whose root carries the repeated batch shape: `(k, *(bᵢ·rᵢ), n)`. -/
+theorem batchRepeatShape_total (base reps : List Nat) (n m k : Nat) :
+    genericShape (repeatShape base reps) (repeatShape base reps) n m m k = some (k :: repeatShape base reps ++ [n]) :=
+  (genericShape_self _ _ _ _).1
+
+/-! ### Shapes of the specialised samplers: all return `(k, *batch, n)`, every batch shape (also size-1 dims), every
+`k` (also 0 and 1). -/
+
+theorem ciqNoiseShape_eq (batch : List Nat) (n k : Nat) : ciqNoiseShape batch n k = k :: batch ++ [n, 1] := by
+  simp [ciqNoiseShape, lastFirst_append]
+
+theorem ciqShape_eq (batch : List Nat) (n k Q : Nat) : ciqShape batch n k Q = k :: batch ++ [n] := by
+  have : k :: batch ++ [n, 1] = (k :: batch ++ [n]) ++ [1] := by simp
+  rw [ciqShape, ciqNoiseShape_eq, List.tail_cons, this, List.dropLast_concat]
+
+/-- **General shape theorem**: the generic sampler (root with the operator's batch shape), the Diag / Identity sampler,
+the CIQ sampler and the three block samplers all return `(k, *batch, N)`. -/
+theorem sampler_shapes (k : Nat) (batch : List Nat) (n m Q nb : Nat) :
+    genericShape batch batch n m m k = some (k :: batch ++ [n]) ∧
+    diagShape k batch n = k :: batch ++ [n] ∧
+    ciqShape batch n k Q = k :: batch ++ [n] ∧
+    blockShape 0 k batch nb n = k :: batch ++ [nb * n] ∧
+    blockShape 1 k batch nb n = k :: batch ++ [nb * n] ∧
+    blockShape 2 k batch nb n = k :: batch ++ [n] :=
+  ⟨(genericShape_self _ _ _ _).1, rfl, ciqShape_eq _ _ _ _, by simp [blockShape], by simp [blockShape], by simp [blockShape]⟩
+
+/-! ### CIQ with a preconditioner (see `LinOp/C18/ProofsPrecond.lean` for the code path). -/
+
+/-- Preconditioned CIQ draws are a fixed linear map of the noise: `((Σ_q w_q K N_q) S Z)ᵀ`. -/
+theorem ciqPrecond_linear {Q n k : Nat} (w : Fin Q → α) (K S : Matrix (Fin n) (Fin n) α)
+    (N : Fin Q → Matrix (Fin n) (Fin n) α) (Z : Matrix (Fin n) (Fin k) α) :
+    ciq w (fun q s i => ∑ j, (K * N q * S) i j * Z j s)
+      = (((∑ q, w q • (K * N q)) * S * Z : Matrix _ _ α)ᵀ : Matrix _ _ α) := by
+  rw [ciq_linear w (fun q => K * N q * S) Z]
+  simp only [Matrix.sum_mul, Matrix.smul_mul]
+  rfl
+
+/-- **Preconditioned CIQ, error term**: `P = V V` (`V` symmetric with inverse `W`), `K = V M V`, `M = U diag(μ) Uᵀ` the
+preconditioned matrix `P^{-1/2} K P^{-1/2}` in an orthonormal eigenbasis, `N_q` any right inverse of `s_q P − K` (what
+preconditioned msMINRES applies), `S` any root of `P` (what `sqrt_precond_matmul` applies).  Then the sampler's map
+`R = (Σ_q w_q K N_q) S` has `R Rᵀ = V · U diag(f(μ)²) Uᵀ · V` with the scalar rule `f(μ) = Σ_q w_q μ/(s_q − μ)`. -/
+theorem ciqPrecond_cov_general {β : Type} [Field β] {Q n : Nat} {U V W S : Matrix (Fin n) (Fin n) β}
+    (hU : Uᵀ * U = 1) (hU' : U * Uᵀ = 1) (hVW : V * W = 1) (hWV : W * V = 1) (hW : Wᵀ = W)
+    (mu : Fin n → β) (s w : Fin Q → β) (hs : ∀ q i, s q - mu i ≠ 0)
+    (N : Fin Q → Matrix (Fin n) (Fin n) β)
+    (hN : ∀ q, (s q • (V * V) - V * conjU U mu * V) * N q = 1) (hS : S * Sᵀ = V * V) :
+    ((∑ q, w q • ((V * conjU U mu * V) * N q)) * S) * ((∑ q, w q • ((V * conjU U mu * V) * N q)) * S)ᵀ
+      = V * conjU U (fun i => (∑ q, w q * (mu i / (s q - mu i))) * (∑ q, w q * (mu i / (s q - mu i)))) * V := by
+  rw [ciqPrecond_operator hU hU' hVW hWV mu s w hs N hN]
+  exact sandwich_cov hU hVW hWV hW _ hS
+
+/-- **Preconditioned CIQ covariance**: if the scalar rule is exact on the spectrum of the preconditioned matrix
+(`f(μ_i)² = μ_i`) the draws have covariance `R Rᵀ = K`. -/
+theorem ciqPrecond_cov {β : Type} [Field β] {Q n : Nat} {U V W S : Matrix (Fin n) (Fin n) β}
+    (hU : Uᵀ * U = 1) (hU' : U * Uᵀ = 1) (hVW : V * W = 1) (hWV : W * V = 1) (hW : Wᵀ = W)
+    (mu : Fin n → β) (s w : Fin Q → β) (hs : ∀ q i, s q - mu i ≠ 0)
+    (N : Fin Q → Matrix (Fin n) (Fin n) β)
+    (hN : ∀ q, (s q • (V * V) - V * conjU U mu * V) * N q = 1) (hS : S * Sᵀ = V * V)
+    (hf : ∀ i, (∑ q, w q * (mu i / (s q - mu i))) * (∑ q, w q * (mu i / (s q - mu i))) = mu i) :
+    ((∑ q, w q • ((V * conjU U mu * V) * N q)) * S) * ((∑ q, w q • ((V * conjU U mu * V) * N q)) * S)ᵀ
+      = V * conjU U mu * V := by
+  rw [ciqPrecond_cov_general hU hU' hVW hWV hW mu s w hs N hN hS]
+  simp only [hf]
+
+/-- Non-vacuity of `ciqPrecond_cov`: 1×1, `P = 4` (`V = 2`, `W = 1/2`), `K = 16` (`μ = 4`), one point `s = 0`, `w = 2`,
+`N = (0·4 − 16)⁻¹`, `S = 2`: `R = 2·16·(−1/16)·2 = −4`, `R² = 16 = K`. -/
+example : ∃ (V _W S : Matrix (Fin 1) (Fin 1) ℚ) (N : Fin 1 → Matrix (Fin 1) (Fin 1) ℚ),
+    ((∑ q : Fin 1, (2 : ℚ) • ((V * conjU 1 (fun _ => 4) * V) * N q)) * S)
+      * ((∑ q : Fin 1, (2 : ℚ) • ((V * conjU 1 (fun _ => 4) * V) * N q)) * S)ᵀ = V * conjU 1 (fun _ => 4) * V ∧ V 0 0 = 2 := by
+  refine ⟨Matrix.of fun _ _ => 2, Matrix.of fun _ _ => 1 / 2, Matrix.of fun _ _ => 2, fun _ => Matrix.of fun _ _ => -1 / 16, ?_, rfl⟩
+  apply ciqPrecond_cov (U := (1 : Matrix (Fin 1) (Fin 1) ℚ)) (W := Matrix.of fun _ _ => 1 / 2) (by simp) (by simp) ?_ ?_ ?_
+    (fun _ => 4) (fun _ => 0) (fun _ => 2)
+  · intro q i; norm_num
+  · intro q; ext i j; simp [Matrix.mul_apply, conjU_apply, Matrix.one_apply, Subsingleton.elim i j]; norm_num
+  · ext i j; simp [Matrix.mul_apply]
+  · intro i; simp; norm_num
+  · ext i j; simp [Matrix.mul_apply, Matrix.one_apply, Subsingleton.elim i j]
+  · ext i j; simp [Matrix.mul_apply, Matrix.one_apply, Subsingleton.elim i j]
+  · ext i j; simp [Matrix.transpose_apply]
+
+/-- Non-vacuity of `kronAddedDiag_cov` / `symeig_cov`: `Q = 1` (2×2), `λ = (3, 8)`, `c = 1`, `s = (2, 3)`. -/
+example : (Matrix.of (scaleCols (1 : Matrix (Fin 2) (Fin 2) ℤ) ![2, 3]) * (Matrix.of (scaleCols (1 : Matrix (Fin 2) (Fin 2) ℤ) ![2, 3]))ᵀ
+    : Matrix _ _ ℤ) = 1 * Matrix.diagonal ![3, 8] * (1 : Matrix (Fin 2) (Fin 2) ℤ)ᵀ + (1 : ℤ) • 1 :=
+  kronAddedDiag_cov 1 (by simp) _ _ 1 (by intro j; fin_cases j <;> simp)
+
+/-- Non-vacuity of `repeatIdx_lt` and of `ravel_unravel`: base batch `(2, 1)` repeated `(3, 2)` → `(6, 2)`; output member
+`(5, 1)` (flat 11) reads base member `(1, 0)` (flat 1). -/
+example : repeatShape [2, 1] [3, 2] = [6, 2] ∧ repeatIdx [2, 1] [5, 1] = [1, 0] ∧ repeatMember [2, 1] [3, 2] 11 = 1 ∧
+    repeatShape [2] [3, 1] = [3, 2] ∧ repeatMember [2] [3, 1] 5 = 1 := by decide
+
+/-! ### Translator facts: the sampler / root source text the model was written against (regenerated from /repo by
+`harness/extract/c18_samplers.py` on every run). -/
+
+/-- Today's source of every mirrored sampler / root override is, after `ast` normalisation, the text the model mirrors:
+noise shapes, permutes, the reshape / transpose / sum of the block samplers, Chol orientation, BatchRepeat's `repeat`
+arguments, ConstantMul's test and exponent, Kronecker's threshold comparison, KroneckerAddedDiag's constant-diagonal root,
+`_scale_columns`, SumKronecker's `matmul`, the CIQ preconditioning steps. -/
+theorem gen_sampler_facts : LinOp.Generated.C18.facts = expectedFacts := rfl
 
 end LinOp.C18
